@@ -36,6 +36,9 @@ def gen_cfg(r, i):
     if big and pre is None:
         # large offset compared with widths: a relative 1e-5 "did not move" test would misfire here
         cfg.update(like_center=1.0e6, prop_mu=1.0e6, half=2.0e6, prop_sigma=3.0, like_width=1.0)
+    if not big and r.random() < 0.3:
+        # a proposal with compact support INSIDE the prior box: the kernel visits points with zero proposal density but finite prior
+        cfg.update(prop_kind="uniform", prop_mu=0.0, prop_sigma=0.7 * cfg["half"], like_center=0.6 * cfg["half"], like_width=0.4)
     if s.endswith("_smc") and r.random() < 0.4:
         cfg["n_final_samples"] = int(cfg["n_samples"] * r.choice([0.5, 2]))
     if s == "minipcn_smc":
